@@ -251,3 +251,41 @@ def provenance(body, defs, start_locals, call_names=(), all_args_names=(), max_s
                     elif o.get("k") == "const":
                         stops.add("const")
     return params, stops
+
+
+def value_roots(body, defs, place, depth=0, seen=None):
+    """field-sensitive backward resolution of a place to the locals that *hold* the value:
+    follows copies/moves/refs, selects the matching operand of tuple aggregates, ignores
+    downcasts / ADT field reads (they stay inside the same holder).  Stops at call results,
+    parameters and locals with several whole definitions."""
+    if seen is None:
+        seen = set()
+    l = place["l"]
+    projs = [p for p in place["p"] if p != "*"]
+    key = (l, len(projs))
+    if depth > 30 or key in seen:
+        return {l}
+    seen = seen | {key}
+    ds = [d for d in defs.of(l) if (d[0] == "call" and not d[2]["dest"]["p"]) or (d[0] == "stmt" and not d[3]["p"])]
+    if len(ds) != 1:
+        return {l}
+    d = ds[0]
+    if d[0] == "call":
+        return {l}
+    rv = d[4]
+    k = rv["k"]
+    if k == "use" and rv["op"]["k"] in ("copy", "move"):
+        src = rv["op"]["place"]
+        return value_roots(body, defs, {"l": src["l"], "p": list(src["p"]) + projs}, depth + 1, seen)
+    if k == "ref":
+        src = rv["place"]
+        return value_roots(body, defs, {"l": src["l"], "p": list(src["p"]) + projs}, depth + 1, seen)
+    if k == "cast" and rv["op"]["k"] in ("copy", "move"):
+        src = rv["op"]["place"]
+        return value_roots(body, defs, {"l": src["l"], "p": list(src["p"]) + projs}, depth + 1, seen)
+    if k == "agg" and rv["kind"].get("t") == "tuple" and projs and isinstance(projs[0], dict) and "f" in projs[0]:
+        op = rv["ops"][projs[0]["f"]]
+        if op["k"] in ("copy", "move"):
+            src = op["place"]
+            return value_roots(body, defs, {"l": src["l"], "p": list(src["p"]) + projs[1:]}, depth + 1, seen)
+    return {l}
